@@ -332,6 +332,9 @@ def parse_dump(text):
         elif k == "WF":
             res["wf"] = p[1] == "1"
             i += 1
+        elif k == "MODELCERTS":
+            res["modelcerts"] = p[1] == "1"
+            i += 1
         elif k == "RUN":
             cur_run = res["runs"].setdefault(int(p[1]), {"M": [], "S": []})
             i += 1
